@@ -16,6 +16,7 @@ Spell == <<
   [t |-> "plain text",      first |-> "LINE_PLAIN", w |-> "plain", hide |-> FALSE],
   [t |-> "\ttabbed",        first |-> "LINE_INDENTED_TAB", w |-> "tabbed", hide |-> FALSE],
   [t |-> "    spaced",      first |-> "LINE_INDENTED_SPACE", w |-> "spaced", hide |-> FALSE],
+  [t |-> " \tmixed",        first |-> "LINE_INDENTED_TAB", w |-> "mixed", hide |-> FALSE],          \* one to three blanks, then a tab: indented all the same
   [t |-> "a | b",           first |-> "LINE_TABLE", w |-> "", hide |-> FALSE],
   [t |-> "--|:-:",          first |-> "LINE_TABLE_SEPARATOR", w |-> "", hide |-> FALSE],
   [t |-> "<div>",           first |-> "LINE_HTML", w |-> "", hide |-> TRUE],
@@ -64,7 +65,9 @@ IsDef(seq, j) == Spell[seq[j]].first \in {"LINE_DEF_ABBREVIATION", "LINE_DEF_CIT
 Exposed(seq, i) == /\ ~Spell[seq[i]].hide
                    /\ \A j \in GroupStart(seq, i) .. (i - 1) : ~Spell[seq[j]].hide
                    /\ \A j \in 1 .. (i - 1) : Txt(seq, j) # "<!--"
-                   /\ ~(Txt(seq, i) \in {"\ttabbed", "    spaced"} /\ \E j \in 1 .. (i - 1) : IsDef(seq, j))
+                   /\ ~(Txt(seq, i) \in {"\ttabbed", "    spaced", " \tmixed"} /\ \E j \in 1 .. (i - 1) : IsDef(seq, j))
+                   \* (... and the lines that lazily continue such an indented line belong to the definition with it)
+                   /\ \A j \in GroupStart(seq, i) .. (i - 1) : ~(Txt(seq, j) \in {"\ttabbed", "    spaced", " \tmixed"} /\ \E k \in 1 .. (j - 1) : IsDef(seq, k))
                    /\ Txt(seq, 1) # "---"
 NeedExposed(seq, w, compat) == Cardinality({i \in 1 .. Len(seq) : WordIn(seq[i], compat) = w /\ Exposed(seq, i) /\ ~IsLabel(seq, i)})
 \* cnt: word -> occurrences in the rendering's text (markup removed); carries: the format keeps the source text itself
